@@ -344,13 +344,48 @@ func (d *drv) emit(e vt.Ev) {
 	d.tr.Emit(e)
 }
 
+// exactFilter: a filter policy with its own name; the filter block is the sorted list of 4-byte key hashes.
+type exactFilter struct{}
+
+func xhash(b []byte) uint32 {
+	h := uint32(2166136261)
+	for _, c := range b {
+		h = (h ^ uint32(c)) * 16777619
+	}
+	return h
+}
+func (exactFilter) Name() string { return "verif.ExactHashFilter" }
+func (exactFilter) NewGenerator() filter.FilterGenerator { return &exactGen{} }
+func (exactFilter) Contains(f, key []byte) bool {
+	h := xhash(key)
+	for i := 0; i+4 <= len(f); i += 4 {
+		if uint32(f[i])|uint32(f[i+1])<<8|uint32(f[i+2])<<16|uint32(f[i+3])<<24 == h {
+			return true
+		}
+	}
+	return false
+}
+
+type exactGen struct{ hs []uint32 }
+
+func (g *exactGen) Add(key []byte) { g.hs = append(g.hs, xhash(key)) }
+func (g *exactGen) Generate(b filter.Buffer) {
+	out := b.Alloc(4 * len(g.hs))
+	for i, h := range g.hs {
+		out[4*i], out[4*i+1], out[4*i+2], out[4*i+3] = byte(h), byte(h>>8), byte(h>>16), byte(h>>24)
+	}
+	g.hs = g.hs[:0]
+}
+
 func (d *drv) open(ro bool) error {
 	o := *d.row.O
 	o.ReadOnly = ro
 	if d.mode == "c16" {
 		// change the filter policy at every (re)open; tables written under the
 		// other policies stay readable through AltFilters.
-		pol := []filter.Filter{nil, filter.NewBloomFilter(1), filter.NewBloomFilter(10), filter.NewBloomFilter(20)}
+		// (all bloom settings share one policy name; exactFilter is a policy of another name, whose blocks a bloom
+		// reader must ignore and vice versa unless it is listed among the alternatives)
+		pol := []filter.Filter{nil, filter.NewBloomFilter(1), filter.NewBloomFilter(10), filter.NewBloomFilter(20), exactFilter{}, exactFilter{}}
 		d.filt = (d.filt + 1 + d.rng.Intn(len(pol)-1)) % len(pol)
 		o.Filter = pol[d.filt]
 		o.AltFilters = nil
@@ -765,6 +800,10 @@ func (d *drv) doIterMove(h int, it iterator.Iterator) {
 		if d.poison {
 			d.itRaw[h] = [2][]byte{it.Key(), it.Value()}
 			d.itSeen[h] = [2][]byte{append([]byte(nil), it.Key()...), append([]byte(nil), it.Value()...)}
+			// the usual "next key" idiom: appending to an exposed slice writes into its spare capacity, which
+			// must not be the memory of anything else the iterator exposes
+			_ = append(it.Key(), 0xEE, 0xEE, 0xEE, 0xEE)
+			_ = append(it.Value(), 0xEE, 0xEE, 0xEE, 0xEE)
 		}
 	} else {
 		delete(d.itRaw, h)
@@ -1162,6 +1201,13 @@ func (d *drv) stepC08() {
 		}
 	}
 	_ = n
+	if inj > 0 && !d.postHeal && !d.ro && d.tx == nil && d.rng.Intn(12) == 0 {
+		// the application reacts to the errors by switching to read-only while a background error may still be pending:
+		// writes must then be refused at once (ErrReadOnly), nothing may block, Close must return
+		d.doSetRO()
+		d.writeSome()
+		return
+	}
 	d.c08op()
 }
 
